@@ -360,9 +360,65 @@ func keysOf(n ischema.Node) ([]string, []string, []string) {
 	return keys, origins, req
 }
 
+// reachableOnly: the case without the types nobody names (with nested registrations a type that no text
+// mentions is registered nowhere: it is not part of the project at all)
+func reachableOnly(c Case) Case {
+	mention := func(o OType, name string) bool {
+		if o.NonObj {
+			return false // (printed as an array of one integer)
+		}
+		for _, a := range o.AllOf {
+			if a == name {
+				return true
+			}
+		}
+		for _, v := range o.Vals {
+			if v == name || strings.HasSuffix(v, "+"+name) {
+				return true
+			}
+		}
+		return o.AP == name
+	}
+	reach := map[string]bool{c.Types[0].Name: true}
+	rootOnlyRefers := c.Wrap == 2 && len(c.Types) > 1 && !c.Types[1].Withheld && !c.Types[1].NonObj
+	if rootOnlyRefers {
+		// the root text is {"ref": @t0}: what Types[0] says is not in the project
+		reach = map[string]bool{c.Types[1].Name: true}
+	}
+	for changed := true; changed; {
+		changed = false
+		for _, t := range c.Types {
+			if !reach[t.Name] || t.Withheld {
+				continue
+			}
+			for _, u := range c.Types {
+				if !reach[u.Name] && mention(t, u.Name) {
+					reach[u.Name] = true
+					changed = true
+				}
+			}
+		}
+	}
+	out := c
+	out.Types = nil
+	out.Order = nil
+	for i, t := range c.Types {
+		if reach[t.Name] || (i == 0 && rootOnlyRefers) {
+			out.Types = append(out.Types, t)
+		}
+	}
+	return out
+}
+
 func oracle(c Case) *ev.Verdict {
 	if len(c.Types) == 0 {
 		return nil
+	}
+	if c.Extra == 3 && c.Wrap == 2 {
+		c.Extra = 0 // (a root that only refers to the first type: which type that is would change with the filter)
+	}
+	if c.Extra == 3 {
+		c = reachableOnly(c)
 	}
 	p, inheriting := c.project()
 	tp := p.Text(nil)
@@ -407,6 +463,9 @@ func oracle(c Case) *ev.Verdict {
 		single = single && len(t.AllOf) <= 1
 	}
 	tp.PreCheck = c.Extra == 1 && single
+	// 3 = every schema registers only the types its own text names: parents and referred types are known to
+	// the type that names them, not to the root (the root inheriting itself needs no such thing: Wrap 0 only)
+	tp.Nest = c.Extra == 3 && !p.Self
 	b := sut.Build(tp)
 	if c.Extra == 2 {
 		// a second registration under a taken name is refused and changes nothing
@@ -735,7 +794,7 @@ func genCase(t *rapid.T) Case {
 			c.Order[i], c.Order[j] = c.Order[j], c.Order[i]
 		}
 	}
-	c.Extra = rapid.SampledFrom([]int{0, 0, 1, 2}).Draw(t, "extra")
+	c.Extra = rapid.SampledFrom([]int{0, 0, 1, 2, 3}).Draw(t, "extra")
 	return c
 }
 
